@@ -43,6 +43,7 @@ type deco struct {
 	tagged  []string       // lock-server session ids in TagConn order
 	connEnd map[string]int // lock-server session id -> ConnEnd deliveries
 	ends    []string       // session ids in ConnEnd order
+	onEnd   func(id string) // optional observer of ConnEnd deliveries (event log of the M4c validation)
 }
 
 func (d *deco) TagConn(ctx context.Context, st *stats.ConnTagInfo) context.Context {
@@ -60,7 +61,11 @@ func (d *deco) HandleConn(ctx context.Context, st stats.ConnStats) {
 		d.mu.Lock()
 		d.connEnd[id]++
 		d.ends = append(d.ends, id)
+		f := d.onEnd
 		d.mu.Unlock()
+		if f != nil {
+			f(id)
+		}
 	}
 	d.Service.HandleConn(ctx, st)
 }
